@@ -296,6 +296,7 @@ def batch_family(which, lo, hi, seed):
 
     def _alarm(sig, frm):
         fired[0] = True
+        signal.alarm(1)      # re-arm: an exception raised inside a __del__ / ctypes callback is swallowed
         raise _Slow()
     signal.signal(signal.SIGALRM, _alarm)
     res['skipped_slow'] = 0
